@@ -98,6 +98,13 @@ def run(m, rep, tier):
         else:
             check_descent(m, f, w4)
 
+    w7 = rep.rule('W7', 'insert links the new node only into a child slot it has just read as empty', floor=1)
+    f = m.ifn('cstl_bintree_insert')
+    if f is None:
+        w7.undecided('cstl_bintree_insert', 'not in the model')
+    else:
+        check_insert_slot(m, f, w7)
+
     w5 = rep.rule('W5', 'erase unlinks exactly the node find returned (when non-NULL) and returns it', floor=2)
     for name in ('cstl_bintree_erase', 'cstl_rbtree_erase'):
         f = m.pfn(name)
@@ -203,10 +210,14 @@ def _phi_leaves(f, ref, seen=None):
 
 def check_descent(m, f, rule):
     cmps = [c for c in f.all_insts() if c.op == 'call' and c.callee is None and c.x.get('fty') == CMP_FTY]
-    if len(cmps) != 1:
-        rule.undecided(f.name, '%d comparison call sites (expected the one in the descent loop)' % len(cmps), floc(m, f))
+    if not cmps:
+        rule.undecided(f.name, 'no comparison call site found', floc(m, f))
         return
-    c = cmps[0]
+    for c in cmps:
+        _check_descent_site(m, f, c, rule, len(cmps))
+
+
+def _check_descent_site(m, f, c, rule, nsites):
     bad = []
     a0 = listrules.handed_node(f, c.o[0])
     if a0 != '$1' and not listrules.derived_from(f, strip_bitcasts(f, c.o[0]), '$1'):
@@ -256,10 +267,42 @@ def check_descent(m, f, rule):
         bad.append('a non-negative comparison result does not descend to the right child')
     if neg == {'r'} or (other and other == {'l'}):
         bad.append('the descent direction is inverted')
+    site = f.name if nsites == 1 else '%s@%d' % (f.name, c.line)
     if bad:
-        rule.violation(f.name, '; '.join(sorted(set(bad))), floc(m, f), {'sides': {k: sorted(v) for k, v in sides.items()}})
+        rule.violation(site, '; '.join(sorted(set(bad))), floc(m, f), {'sides': {k: sorted(v) for k, v in sides.items()}})
     else:
-        rule.ok(f.name, 'cmp(caller element, resident): negative -> l, otherwise -> r', c.loc())
+        rule.ok(site, 'cmp(caller element, resident): negative -> l, otherwise -> r', c.loc())
+
+
+def check_insert_slot(m, f, rule):
+    pv = Prover(f)
+    links = []
+    for s in f.all_insts():
+        if s.op != 'store':
+            continue
+        v = strip_bitcasts(f, s.o[0])
+        if listrules.handed_node(f, v) == '$1' or listrules.derived_from(f, v, '$1'):
+            # the new node's address stored somewhere: into the tree (root slot or a child slot)
+            links.append(s)
+    if not links:
+        rule.violation('cstl_bintree_insert', 'the new node is never linked into the tree', floc(m, f), {})
+        return
+    bad = []
+    for s in links:
+        slot = strip_bitcasts(f, s.o[1])
+        ok = False
+        for (op, x, y) in pv.facts_at(s):
+            if op == 'eq' and y == 'null':
+                xi = f.get(x)
+                if xi is not None and xi.op == 'load' and strip_bitcasts(f, xi.o[0]) == slot:
+                    ok = True
+        if not ok:
+            bad.append('the new node is stored at %s into a link that was not just read as NULL: an existing subtree hanging there would be cut out of the '
+                       'tree while size still counts it' % s.loc())
+    if bad:
+        rule.violation('cstl_bintree_insert', '; '.join(bad), floc(m, f), {})
+    else:
+        rule.ok('cstl_bintree_insert', '%d link store(s), each into a slot read as NULL' % len(links), floc(m, f))
 
 
 def check_erase(m, f, rule):
